@@ -5,6 +5,7 @@ package main
 import (
 	"fmt"
 	"go/ast"
+	"go/token"
 	"go/types"
 
 	"golang.org/x/tools/go/packages"
@@ -86,6 +87,65 @@ gave 0 without carry.`,
 						}
 					}
 					s.Fail(nil, key, call.Pos(), "the carry input is "+types.ExprString(call.Args[2])+", which is neither 0/1 nor the carry out of a math/bits operation: for a word above 1 the result is undefined (amd64: Add64(5, 0, 2) = 6 for an exact sum of 7; Add64(0, 0, 2^63) = 0 without carry; the portable code gives other values) — the other 64 bit primitives of the type (Mul64, the shifts) do exchange whole words as 'carry'")
+					return true
+				})
+			})
+		},
+	})
+}
+
+func init() {
+	register(&Rule{
+		ID: "CF-2", Props: []string{"C20"}, Min: 2,
+		Doc: `"… return the mathematically exact result": what does not fit the word is returned exactly too. In pkg/obifp two carries (second results of bits.Add64 / bits.Sub64) that were BOTH produced
+with a constant carry input — two additions chained through their sum to add a third full-word operand, as Uint64.Add64 and Sub64 do — may both be 1, so an expression combining them uses +:
+with | the carry of 2 + (2^64-1) + (2^64-1) = 2·2^64 is 1. (Carries chained through the carry input of the next call cannot both be set and are not concerned.)`,
+		Run: func(c *Ctx, s *Sink) {
+			c.EachFunc([]string{"pkg/obifp"}, func(p *packages.Package, fd *ast.FuncDecl) {
+				info := p.TypesInfo
+				// carries produced by a call whose own carry input is the constant 0
+				free := map[types.Object]bool{}
+				ast.Inspect(fd.Body, func(n ast.Node) bool {
+					as, ok := n.(*ast.AssignStmt)
+					if !ok || len(as.Lhs) != 2 || len(as.Rhs) != 1 {
+						return true
+					}
+					call, ok := ast.Unparen(as.Rhs[0]).(*ast.CallExpr)
+					if !ok || len(call.Args) != 3 {
+						return true
+					}
+					if fn := fullName(callee(info, call)); fn != "math/bits.Add64" && fn != "math/bits.Sub64" {
+						return true
+					}
+					if v, isC := constInt(info, call.Args[2]); isC && v == 0 {
+						if o := rootObj(info, as.Lhs[1]); o != nil {
+							free[o] = true
+						}
+					}
+					return true
+				})
+				if len(free) < 2 {
+					return
+				}
+				n := 0
+				ast.Inspect(fd.Body, func(nd ast.Node) bool {
+					b, ok := nd.(*ast.BinaryExpr)
+					if !ok {
+						return true
+					}
+					x, y := rootObj(info, b.X), rootObj(info, b.Y)
+					_, xi := ast.Unparen(b.X).(*ast.Ident)
+					_, yi := ast.Unparen(b.Y).(*ast.Ident)
+					if !xi || !yi || x == nil || y == nil || !free[x] || !free[y] || x == y {
+						return true
+					}
+					n++
+					key := fmt.Sprintf("%s:carries#%d:summed", funcName(p, fd), n)
+					if b.Op == token.ADD {
+						s.Pass(nil, key, b.Pos(), "the two carries are added")
+					} else {
+						s.Fail(nil, key, b.Pos(), "two carries that can both be 1 are combined with "+b.Op.String()+": Add64(2, 2^64-1, carryIn = 2^64-1) returns (0, carry 1) where the exact sum is 2·2^64 — what does not fit the word is under-reported")
+					}
 					return true
 				})
 			})
